@@ -3,7 +3,8 @@
    cfg = true: overflow checks compiled in (cargo dev profile); cfg = false: wrapping (release). *)
 From RU Require Import Base.Prelude Base.Utf8 Base.U32_c13 Gen.Tables Model.Punycode Spec.Rfc3492
   Proofs.C13_Ascii Proofs.C13_Bounds Proofs.C13_Enc Proofs.C13_Dec Proofs.C13_Known Proofs.C13_Vli Proofs.C13_Rt Proofs.C13_Main
-  Proofs.C13_DecB Proofs.C13_RtB Proofs.C13_DecEnc Proofs.C13_Small.
+  Proofs.C13_DecB Proofs.C13_RtB Proofs.C13_DecEnc Proofs.C13_Small
+  Proofs.C13_Mono Proofs.C13_Parse Proofs.C13_EncDecB Proofs.C13_EncDec.
 
 (* the regenerated Bootstring parameters are those of RFC 3492 section 5 *)
 Theorem C13_consts :
@@ -148,6 +149,52 @@ Check C13_enc_dec_partial : forall cfg p s q, ~ Known_C13_2 p ->
   decode cfg p = Ok s -> encode cfg s = Ok q -> s_decode p = Some s /\ q = s_encode s /\ ascii q.
 Print Assumptions C13_enc_dec_partial.
 
+(* encode (decode p) = p up to the case of the digits, full statement: the u32 encoder does not overflow on
+   what the u32 decoder produced, and it writes the basic part of p, the delimiter, and the digits of p in lower case *)
+Theorem C13_enc_dec : C13_enc_dec_statement.
+Proof. exact enc_dec_main. Qed.
+Check C13_enc_dec : forall cfg p s, ~ Known_C13_2 p -> decode cfg p = Ok s -> has_non_ascii s = true ->
+  exists q, encode cfg s = Ok q /\ eq_upto_digit_case q p.
+Print Assumptions C13_enc_dec.
+
+(* the same without the hypothesis that s has a non-ASCII scalar (an all-ASCII s comes from p = s ++ "-" or p = "") *)
+Theorem C13_enc_dec_all : forall cfg p s, ~ Known_C13_2 p -> decode cfg p = Ok s ->
+  exists q, encode cfg s = Ok q /\ eq_upto_digit_case q p.
+Proof. exact enc_dec_all. Qed.
+Check C13_enc_dec_all : forall cfg p s, ~ Known_C13_2 p -> decode cfg p = Ok s ->
+  exists q, encode cfg s = Ok q /\ eq_upto_digit_case q p.
+Print Assumptions C13_enc_dec_all.
+
+(* uniqueness of the generalized variable-length integers: whatever digits the decoder accepts for one delta q are,
+   in lower case, the digits the encoder writes for q *)
+Theorem C13_vli_unique : forall R mid oldi w k i n bias out s, R <> [] ->
+  b_dec_loop digit_u8 R mid oldi w k i n bias out = Some s ->
+  exists q D R', R = D ++ R'
+    /\ (forall f, q < 2 ^ N.of_nat f -> map to_lower D = s_enc_vli (S f) q k bias)
+    /\ i + q * w <= U32_MAX
+    /\ b_dec_break (b_dec_loop digit_u8) R' oldi (i + q * w) n bias out = Some s.
+Proof. exact (vli_parse digit_u8 digit_u8_lower). Qed.
+Check C13_vli_unique : forall R mid oldi w k i n bias out s, R <> [] ->
+  b_dec_loop digit_u8 R mid oldi w k i n bias out = Some s ->
+  exists q D R', R = D ++ R'
+    /\ (forall f, q < 2 ^ N.of_nat f -> map to_lower D = s_enc_vli (S f) q k bias)
+    /\ i + q * w <= U32_MAX
+    /\ b_dec_break (b_dec_loop digit_u8) R' oldi (i + q * w) n bias out = Some s.
+Print Assumptions C13_vli_unique.
+
+(* the <n, i> monotonicity of the decoder: of the final string, what lies below the current n is already in the
+   output, and so is the prefix of length i of what lies at or below n *)
+Theorem C13_decoder_monotone : forall R mid oldi w k i n bias out s,
+  all_le n out -> b_dec_loop digit_u8 R mid oldi w k i n bias out = Some s ->
+  (forall c, c < n -> filter (le_m c) s = filter (le_m c) out)
+  /\ (forall A B, out = A ++ B -> len A <= i -> exists B', filter (le_m n) s = A ++ B').
+Proof. exact (b_mono digit_u8). Qed.
+Check C13_decoder_monotone : forall R mid oldi w k i n bias out s,
+  all_le n out -> b_dec_loop digit_u8 R mid oldi w k i n bias out = Some s ->
+  (forall c, c < n -> filter (le_m c) s = filter (le_m c) out)
+  /\ (forall A B, out = A ++ B -> len A <= i -> exists B', filter (le_m n) s = A ++ B').
+Print Assumptions C13_decoder_monotone.
+
 (* step (1) of the round trip: the unbounded decoder reads the variable-length integer the encoder writes
    for q under the same bias and arrives at i + q * w at the end of that delta *)
 Theorem C13_vli_partial : forall q k bias w i rest mid oldi n out,
@@ -201,4 +248,18 @@ Proof.
   - unfold Known_C13. vm_compute. discriminate.
   - vm_compute. reflexivity.
   - vm_compute. reflexivity.
+Qed.
+
+(* the hypotheses of C13_enc_dec are met by sample (L) written with upper-case digits; the theorem's q is then
+   the lower-case spelling *)
+Example C13_enc_dec_premises_hold :
+  ~ Known_C13_2 [51; 66; 45; 87; 87; 52; 67; 53; 69; 49; 56; 48; 69; 53; 55; 53; 65; 54; 53; 76; 83; 89; 50; 66]
+  /\ decode true [51; 66; 45; 87; 87; 52; 67; 53; 69; 49; 56; 48; 69; 53; 55; 53; 65; 54; 53; 76; 83; 89; 50; 66]
+     = Ok [51; 24180; 66; 32068; 37329; 20843; 20808; 29983]
+  /\ has_non_ascii [51; 24180; 66; 32068; 37329; 20843; 20808; 29983] = true
+  /\ lower_digits [51; 66; 45; 87; 87; 52; 67; 53; 69; 49; 56; 48; 69; 53; 55; 53; 65; 54; 53; 76; 83; 89; 50; 66]
+     = [51; 66; 45; 119; 119; 52; 99; 53; 101; 49; 56; 48; 101; 53; 55; 53; 97; 54; 53; 108; 115; 121; 50; 98].
+Proof.
+  split; [|vm_compute; repeat split; reflexivity].
+  unfold Known_C13_2. vm_compute. discriminate.
 Qed.
